@@ -129,8 +129,12 @@ def build(rng, base, prev, nmac, post, host, inc_attrs=(), body_from_host=False,
     q = len(front)
     # what the parser of the body meets first: an earlier nested include (prev = include) is the violation itself
     first_inc = next(i for i, it in enumerate(body) if it[0] == "include")
-    cls = "unexpected_attr" if (inc_attrs and first_inc == q) else "include_in_source"
-    return p, dict(cls=cls, detail=None, nest=dict(prev=prev_kind, nmac=nm, post=npost, host=host, q=q, body=len(body),
+    exp = dict(cls="include_in_source", detail=None)
+    if inc_attrs and first_inc == q:
+        # two rules are broken at once (an attribute in front of an include_source!, an include_source! in a source): the property
+        # demands a rejection by either message; which one comes first is the model's business (Check/CheckModel.v scan_src)
+        exp["any_of"] = ["err:unexpected_attr", "err:include_in_source"]
+    return p, dict(exp, nest=dict(prev=prev_kind, nmac=nm, post=npost, host=host, q=q, body=len(body),
                                                     attributed=bool(inc_attrs)))
 
 
